@@ -131,7 +131,11 @@ CHECKS = [
 TECH = "explicit TLA+ spec + TLC exhaustive model checking; every TLC transition replayed on the real object (spec->impl conformance)"
 
 NOT_APPLICABLE = {
-    "C07": "decoder totality over arbitrary byte strings is a property of a pure function on unstructured input; there is no state machine for a TLA+ specification to describe (DESIGN.md section 7)",
+    "C07": "decoder totality over arbitrary byte strings is a property of pure functions on unstructured input (fuzzing territory); there is no state machine for a TLA+ specification to describe. The participant-level consequence (no datagram crashes, hangs or exhausts a running participant) is decided by C06 (DESIGN.md section 7)",
+    "C09": "XCDR round trip of every value of every type is encode/decode fidelity of a data format; a TLA+ transcription would re-implement the codec rather than specify behaviour, and TLC cannot enumerate generated types/values at a useful scale (DESIGN.md section 7)",
+    "C10": "needs an independent DDS-XTypes implementation as oracle (none is installed and nothing can be fetched); encode/decode conformance is outside what a state-machine specification decides (DESIGN.md section 7)",
+    "C13": "round trip of the discovery parameter-list encoding is codec fidelity; the behavioural part - every accepted QoS is announced and a remote participant sees exactly that QoS - is decided by C37 through real discovery traffic in the simulation (DESIGN.md section 7)",
+    "C39": "type assignability and decoding across evolved types quantify over generated pairs of types and values of the XCDR codec; not a state-machine property (DESIGN.md section 7)",
     "C40": "derive-macro fidelity quantifies over Rust programs that must be generated and compiled; not expressible as a TLA+ state machine (DESIGN.md section 7)",
     "C41": "IDL compiler output quantifies over generated programs compiled by rustc; not expressible as a TLA+ state machine (DESIGN.md section 7)",
 }
